@@ -433,3 +433,89 @@ Theorem model_variant_writeback_stale_grid_thm :
     get nat nat Nat.eqb (writeback_variant_copy_on_realloc nat nat 0 old fs vs) (nth 0 fs 0%nat) <> Some (nth 0 vs 0%nat).
 Proof. exact model_variant_writeback_stale_grid. Qed.
 Print Assumptions model_variant_writeback_stale_grid_thm.
+
+(* ======================================================================================== *)
+(* Levenberg-Marquardt kernel: one pass of _vnacal_new_solve_auto as coded                  *)
+(* (SelfCal/AutoKernelModel.v, executable over Q[i]; AutoKernelProofs.v, AutoKernelQI.v)    *)
+(* ======================================================================================== *)
+Require Import Arith.
+Require Import LV.Lin.MatL LV.Lin.LuQI2 LV.Lin.LuGenA LV.Lin.LuNonsing LV.Lin.LuNonsingQI LV.Lin.LsLuProofs.
+Require Import LV.SelfCal.AutoKernelModel LV.SelfCal.AutoKernelProofs LV.SelfCal.AutoKernelQI.
+Local Close Scope cf_scope.
+Local Open Scope nat_scope.
+
+(* The fixed point, DERIVED (auto_fixed_point_oracle_level_thm assumed it of an abstract kernel).
+   For every problem (any number of systems, equations, error terms, unknown parameters and
+   correlated parameters; with or without weights and v factors), every parameter vector ps and
+   error-term vector xs: if the equations as the code forms them at ps are satisfied by xs
+   (exact measurements), a_matrix(ps) has full column rank, the correlated parameters have the
+   values of their partners, and J^H J at ps is nonsingular, then the pass at ps returns x = xs,
+   sum_k_squared = 0, J^H k = 0, the step d = 0, and the whole iteration (AutoLoop's control
+   skeleton over this kernel) returns Converged xs ps after exactly one pass, for all tolerances
+   and limits. *)
+Theorem auto_fixed_point_derived_thm :
+  forall (pr : problem) (ptol ettol : Qc) (limit : nat) (ps xs : list qi),
+  length ps = pr_pl pr -> length xs = pr_xlen pr -> pr_pl pr <> 0 -> pr_xlen pr <> 0 ->
+  full_col_rank (pr_equations pr) (pr_xlen pr) (a_matrix pr ps) ->
+  exact_data pr ps xs ->
+  corr_consistent pr ps ->
+  (forall pd, kernel_pass pr ps = Some pd ->
+     q_kernel_trivial (j1_matrix (pr_pl pr) (pd_jtj pd) 0%Qc) (pr_pl pr)) ->
+  exists pd, kernel_pass pr ps = Some pd /\ pd_x pd = xs /\ pd_sumk pd = 0%Qc /\
+    (forall i, i < pr_pl pr -> mget QIF (pd_jtk pd) i 0 = qi0) /\
+    kernel_step (pr_pl pr) (pd_jtj pd) (pd_jtk pd) 0%Qc = Some (repeat qi0 (pr_pl pr)) /\
+    kernel_run pr ptol ettol limit ps = (Converged xs ps, [Entry true 1%Qc 0%Qc true]).
+Proof. exact kernel_fixed_point. Qed.
+Print Assumptions auto_fixed_point_derived_thm.
+
+(* the hypotheses are satisfiable: a one-port T8-shaped calibration with five known reflects and
+   one unknown reflect, exact data; conclusion for every tolerance and limit, and by computation *)
+Theorem auto_fixed_point_derived_instance_thm : forall ptol ettol limit,
+  kernel_run ex_pr ptol ettol limit ex_ps = (Converged ex_xs ex_ps, [Entry true 1%Qc 0%Qc true]).
+Proof. exact kernel_fixed_point_instance. Qed.
+Print Assumptions auto_fixed_point_derived_instance_thm.
+
+Theorem auto_fixed_point_hyps_satisfiable_thm :
+  full_col_rank 6 3 (a_matrix ex_pr ex_ps) /\ exact_data ex_pr ex_ps ex_xs /\ corr_consistent ex_pr ex_ps /\
+  (forall pd, kernel_pass ex_pr ex_ps = Some pd ->
+     q_kernel_trivial (j1_matrix (pr_pl ex_pr) (pd_jtj pd) 0%Qc) (pr_pl ex_pr)).
+Proof. exact (conj ex_full_rank (conj ex_exact (conj ex_corr ex_j1_nonsingular))). Qed.
+Print Assumptions auto_fixed_point_hyps_satisfiable_thm.
+
+(* the solve for the error terms alone: consistent full-rank data => x_vector = xs *)
+Theorem auto_solve_x_exact_thm : forall pr p xs,
+  length xs = pr_xlen pr ->
+  full_col_rank (pr_equations pr) (pr_xlen pr) (a_matrix pr p) ->
+  exact_data pr p xs ->
+  exists x, q2_ls_lu (pr_equations pr) (pr_xlen pr) 1 (a_matrix pr p) (b_vector pr p) = Some x /\
+            (forall i, i < pr_equations pr ->
+               mget QIF (mmul QIF (pr_equations pr) (pr_xlen pr) 1 (a_matrix pr p) x) i 0 =
+               mget QIF (b_vector pr p) i 0) /\
+            solve_x pr p = Some xs.
+Proof. exact solve_x_exact. Qed.
+Print Assumptions auto_solve_x_exact_thm.
+
+(* Stationarity: for every p_length, J^H J, J^H k and lambda with J1 = J^H J + lambda I
+   nonsingular, the LU solve as coded returns d, the determinant test accepts it,
+   J1 d = J^H k, and  d = 0  <->  J^H k = 0. *)
+Theorem auto_step_stationarity_thm : forall pl (jtj jtk : qmat) (lam : Qc),
+  wf pl 1 jtk ->
+  q_kernel_trivial (j1_matrix pl jtj lam) pl ->
+  exists d, kernel_step pl jtj jtk lam = Some d /\ length d = pl /\
+    (forall i, i < pl ->
+       sumf pl (fun t => cmul (mget QIF (j1_matrix pl jtj lam) i t) (nth t d qi0)) = mget QIF jtk i 0) /\
+    (d = repeat qi0 pl <-> forall i, i < pl -> mget QIF jtk i 0 = qi0).
+Proof. exact kernel_step_spec. Qed.
+Print Assumptions auto_step_stationarity_thm.
+
+(* Linear-in-p special case, REFUTED: a problem whose equations are linear in the single unknown
+   parameter (one unknown reflect in one s cell), exact data, full rank: one undamped Gauss-Newton
+   step with the Jacobian the code forms (Kaufman's approximation) from the guess 2 does not land
+   on the true value 3, and neither does the first step as coded (lambda = sum_k_squared). *)
+Theorem auto_gn_one_step_linear_refuted_thm :
+  exists pr ps xs p0 p1,
+    exact_data pr ps xs /\ full_col_rank (pr_equations pr) (pr_xlen pr) (a_matrix pr ps) /\
+    pr_pl pr = 1 /\ gn_step pr p0 = Some p1 /\ p1 <> ps /\
+    (exists p2, lm_first_step pr p0 = Some p2 /\ p2 <> ps).
+Proof. exact gn_one_step_linear_refuted. Qed.
+Print Assumptions auto_gn_one_step_linear_refuted_thm.
